@@ -496,6 +496,7 @@ func TestHelpers(t *testing.T) {
 // Every prior selector value 0..63 for both selectors, plain and by wrapping
 // increments, with stop counts around every boundary, on all three destinations.
 func TestSelectorSweep(t *testing.T) {
+	harness.OnlyFirstShard(t)
 	st := harness.Counter("selector-sweep", "prior CSEL = NSEL+5 = 0..63 x {plain, 70 incrementing writes} x stop counts {0,1,2,6,7,54,58,59,256,300} x {renderer, encoder, recorder} with a fixed linear gradient")
 	n := int64(0)
 	for sel := 0; sel < 64; sel++ {
